@@ -1,12 +1,12 @@
 """C02: see harness/coretrace.py (shared controller co-simulation + Lean DRAM specification monitor)."""
 from harness import coretrace
 
-RULE = ("random controller configurations (memtype SDR..DDR4, 1:1/1:2/1:4, 2..16 bank machines, 1..2 ranks, rd/wr phases, all timing "
+RULE = ("random controller configurations (memtype SDR..DDR4, 1:1/1:2/1:4, 2..16 bank machines, 1..2 ranks, rd/wr phases - in about half of the multi-phase configurations handed to the controller as Signals, as the PHYs with software-adjustable phases do - , all timing "
         "settings incl. None, buffer depths, auto-precharge, refresh postponing 1..8, ZQCS) x structured per-bank traffic (phases of "
         "saturation/idle/single-bank/row-conflict/direction mixes); a case = one controller cycle of one configuration, all bank "
         "handshakes and DFI phases compared with the model and fed to the specification monitor; distinct by (seed, configuration index)")
 TRUSTED = ["bank interfaces are driven directly (the crossbar is exercised by C01/C05/C06)",
-           "not modelled: cmd_buffer_buffered=True, dynamic rdphase/wrphase signals, tCCD=None"]
+           "not modelled: cmd_buffer_buffered=True, rdphase/wrphase Signals whose value changes at run time (Signals holding a constant are covered), tCCD=None"]
 ASSUMPTIONS = ["geometry has >= 11 address lines (A10 exists), as every module of the library does"]
 
 
